@@ -2,6 +2,7 @@ package main
 
 import (
 	"fmt"
+	"go/types"
 	"sort"
 	"strings"
 )
@@ -74,10 +75,11 @@ type VC struct {
 	heapSort map[string]string
 	notes  []string // imprecision notes (unmodelled constructs)
 	notemap map[string]bool
+	cellType map[string]types.Type
 }
 
 func newVC(name string, ss *Sorts) *VC {
-	return &VC{Name: name, ss: ss, consts: map[string]string{}, funs: map[string]string{}, axset: map[string]bool{}, heapSort: map[string]string{}, notemap: map[string]bool{}}
+	return &VC{Name: name, ss: ss, consts: map[string]string{}, funs: map[string]string{}, axset: map[string]bool{}, heapSort: map[string]string{}, notemap: map[string]bool{}, cellType: map[string]types.Type{}}
 }
 
 func (vc *VC) note(format string, args ...any) {
